@@ -1,6 +1,8 @@
 package main
 
 import (
+	"sort"
+	"regexp"
 	"fmt"
 	"go/token"
 	"go/types"
@@ -63,8 +65,10 @@ func (t *fnTrans) contractEntry() {
 		}
 	}
 	for _, path := range fc.holds {
-		if _, owner, _, ok := t.lockKeyExpr(e, path); ok && owner.typ != nil {
+		if k, owner, lf, ok := t.lockKeyExpr(e, path); ok && owner.typ != nil {
 			t.assumeInvariants(owner)
+			t.foreignInvariants(lf, true, nil, "", &owner)
+			t.noteForeignLock(lf, owner, k)
 		}
 	}
 }
@@ -114,8 +118,9 @@ func (t *fnTrans) contractReturn(in *ssa.Return, rs []string) {
 		for _, path := range fc.holds {
 			eOld := *e
 			eOld.st = t.entry
-			if _, owner, _, ok := t.lockKeyExpr(&eOld, path); ok && owner.typ != nil {
+			if _, owner, lf, ok := t.lockKeyExpr(&eOld, path); ok && owner.typ != nil {
 				t.assertInvariants(owner, in.Pos(), "exit")
+				t.foreignInvariants(lf, false, in, "exit", &owner)
 			}
 		}
 		for k, en := range fc.ensures {
@@ -145,6 +150,30 @@ func (t *fnTrans) contractReturn(in *ssa.Return, rs []string) {
 		for k, en := range ic.fc.ensures {
 			if term, ok := t.evalBool(e, en); ok {
 				t.oblige("subtype", fmt.Sprintf("%s.post%d@%s", ic.name, k+1, site), in.Pos(), term, "interface contract "+ic.name+": ensures "+en.text)
+			}
+		}
+	}
+	// objects with lock-guarded (foreign) invariants that were allocated here must satisfy them
+	// when the function returns, whoever ends up holding them
+	for _, b := range t.fn.Blocks {
+		for _, bi := range b.Instrs {
+			a, ok := bi.(*ssa.Alloc)
+			if !ok || !a.Heap {
+				continue
+			}
+			if _, done := t.vals[a]; !done || !(b == in.Block() || b.Dominates(in.Block())) {
+				continue
+			}
+			sa := t.structAnnOf(a.Type())
+			if sa == nil || len(sa.invs) == 0 || !t.g.hasForeignLock(sa) {
+				continue
+			}
+			obj := sval{term: t.val(a), typ: a.Type(), sort: "Int"}
+			for k, inv := range sa.invs {
+				e := &evalCtx{t: t, fn: t.fn, st: t.cur, old: t.entry, binds: map[string]sval{}, this: &obj}
+				if term, ok := t.evalBool(e, inv); ok {
+					t.oblige("monitor", fmt.Sprintf("construct:%s.inv%d", sa.name, k+1), in.Pos(), term, "an object allocated here must satisfy its invariant when the function returns: "+inv.text)
+				}
 			}
 		}
 	}
@@ -519,7 +548,8 @@ func splitGhost(s string) (name, expr, site string, ok bool) {
 func (t *fnTrans) monitorAssume(fa *ssa.FieldAddr, field string) {
 	obj := sval{term: t.val(fa.X), typ: fa.X.Type(), sort: "Int"}
 	t.assumeInvariants(obj)
-	t.foreignInvariants(field, true, nil, "")
+	t.foreignInvariants(field, true, nil, "", &obj)
+	t.noteForeignLock(field, obj, t.val(fa))
 }
 
 func (t *fnTrans) monitorAssert(in ssa.Instruction, fa *ssa.FieldAddr, field, nm string) {
@@ -528,21 +558,237 @@ func (t *fnTrans) monitorAssert(in ssa.Instruction, fa *ssa.FieldAddr, field, nm
 	}
 	obj := sval{term: t.val(fa.X), typ: fa.X.Type(), sort: "Int"}
 	t.assertInvariants(obj, in.Pos(), "unlock:"+nm)
-	t.foreignInvariants(field, false, in, "unlock:"+nm)
+	t.foreignInvariants(field, false, in, "unlock:"+nm, &obj)
 }
 
 func (t *fnTrans) monitorAssumeField(field string) {
-	t.foreignInvariants(field, true, nil, "")
+	t.foreignInvariants(field, true, nil, "", t.condOwner)
 }
 
 func (t *fnTrans) monitorAssertField(in ssa.Instruction, field, nm string) {
-	t.foreignInvariants(field, false, in, "wait:"+nm)
+	t.foreignInvariants(field, false, in, "wait:"+nm, t.condOwner)
 }
 
-// foreignInvariants: invariants of structs whose fields are guarded by a lock that
-// lives in another object are attached (universally quantified by hand) to that
-// lock via `lockinv <Type.field>` clauses; none are generated automatically.
-func (t *fnTrans) foreignInvariants(field string, assume bool, in ssa.Instruction, disc string) {}
+// foreignInvariants: invariants of structs whose fields are guarded by a lock that lives in
+// another object (context fields guarded by c.s.Mutex).  While nobody holds the lock every
+// object whose lock path leads to that lock object satisfies its invariants:
+//   assume (after Lock / Wait / a call that keeps the lock): forall o. o != nil && o.<path> == owner ==> inv(o)
+//   assert (before Unlock / Wait / return of a `holds` function / call of one): the same for every
+//          pointer to such a struct this function has had in hand (objects it never touched satisfy
+//          it by the assumption and framing).
+type foreignInv struct {
+	sa        *StructAnn
+	T         types.Type
+	ownerPath string
+}
+
+func (g *Gen) foreignInvsFor(field string) []foreignInv {
+	var out []foreignInv
+	seen := map[string]bool{}
+	for _, gf := range g.ann.byLock[field] {
+		if gf.own || seen[gf.owner] {
+			continue
+		}
+		sa := g.ann.structs[gf.owner]
+		if sa == nil || len(sa.invs) == 0 {
+			continue
+		}
+		fa := sa.fields[gf.field]
+		if fa == nil || strings.HasPrefix(fa.lock, "global:") {
+			continue
+		}
+		i := strings.LastIndex(fa.lock, ".")
+		if i < 0 {
+			continue
+		}
+		seen[gf.owner] = true
+		out = append(out, foreignInv{sa: sa, T: gf.ownerT, ownerPath: fa.lock[:i]})
+	}
+	sort.Slice(out, func(i, j int) bool { return out[i].sa.key < out[j].sa.key })
+	return out
+}
+
+func (g *Gen) hasForeignLock(sa *StructAnn) bool {
+	for _, fa := range sa.fields {
+		if fa.kind == "guarded" && strings.Contains(fa.lock, ".") && !strings.HasPrefix(fa.lock, "global:") {
+			return true
+		}
+	}
+	return false
+}
+
+var selPatRe = regexp.MustCompile(`\(select (\|[^|]*\||[^\s()]+) `)
+
+func (t *fnTrans) foreignInvariants(field string, assume bool, in ssa.Instruction, disc string, owner *sval) {
+	t.foreignInvariantsG(field, assume, token.NoPos, in, disc, owner, "")
+}
+
+// foreignLock: a lock (with foreign invariants attached) this function acquires or is entered with.
+type foreignLock struct {
+	field string
+	owner sval
+	key   string
+}
+
+func (t *fnTrans) noteForeignLock(field string, owner sval, key string) {
+	if sa := t.structAnnOf(owner.typ); len(t.g.foreignInvsFor(field)) == 0 && (sa == nil || len(sa.invs) == 0) {
+		return
+	}
+	for _, fl := range t.foreignLocks {
+		if fl.field == field && fl.owner.term == owner.term {
+			return
+		}
+	}
+	t.foreignLocks = append(t.foreignLocks, foreignLock{field, owner, key})
+}
+
+// foreignLoop: the invariants of lock-guarded objects are implicit loop invariants while the lock is held
+// (loops that cannot change the guarded fields keep the facts by framing and need nothing).
+func (t *fnTrans) foreignLoop(assume bool, pos token.Pos, disc string, all bool, vars map[string]bool) {
+	for i := range t.foreignLocks {
+		fl := &t.foreignLocks[i]
+		touched := all
+		for _, fi := range t.g.foreignInvsFor(fl.field) {
+			pre := "F:" + fi.sa.key + "."
+			for hv := range vars {
+				if strings.HasPrefix(hv, pre) {
+					touched = true
+				}
+			}
+		}
+		guard := sel(t.h.get(t.cur, "held"), fl.key)
+		// the owner's own invariants
+		if sa := t.structAnnOf(fl.owner.typ); sa != nil && len(sa.invs) > 0 {
+			own := all
+			pre := "F:" + sa.key + "."
+			for hv := range vars {
+				if strings.HasPrefix(hv, pre) || strings.HasPrefix(hv, "M") {
+					own = true
+				}
+			}
+			if own {
+				for k, inv := range sa.invs {
+					e := &evalCtx{t: t, fn: t.fn, st: t.cur, old: t.entry, binds: map[string]sval{}, this: &fl.owner}
+					t.quietSpec++
+					term, ok := t.evalBool(e, inv)
+					t.quietSpec--
+					if !ok {
+						continue
+					}
+					if assume {
+						t.assume("(=> " + guard + " " + term + ")")
+					} else {
+						t.oblige("monitor", fmt.Sprintf("%s:%s.inv%d", disc, sa.name, k+1), pos, "(=> "+guard+" "+term+")", "struct invariant is an implicit loop invariant while the lock is held: "+inv.text)
+					}
+				}
+			}
+		}
+		if !touched {
+			continue
+		}
+		t.foreignInvariantsG(fl.field, assume, pos, nil, disc, &fl.owner, guard)
+	}
+}
+
+func (t *fnTrans) foreignInvariantsG(field string, assume bool, pos token.Pos, in ssa.Instruction, disc string, owner *sval, guard string) {
+	if owner == nil {
+		return
+	}
+	if in != nil {
+		pos = in.Pos()
+	}
+	wrap := func(x string) string {
+		if guard == "" {
+			return x
+		}
+		return "(=> " + guard + " " + x + ")"
+	}
+	for _, fi := range t.g.foreignInvsFor(field) {
+		pt := types.NewPointer(fi.T)
+		ownerX, err := parseSpec(fi.ownerPath)
+		if err != nil {
+			continue
+		}
+		instance := func(o string, k int) (cond, body string, ok bool) {
+			defer func() {
+				if r := recover(); r != nil {
+					ok = false
+				}
+			}()
+			this := sval{term: o, typ: pt, sort: "Int"}
+			e := &evalCtx{t: t, fn: t.fn, st: t.cur, old: t.entry, binds: map[string]sval{}, this: &this}
+			ov := e.eval(ownerX)
+			cond = fmt.Sprintf("(and (not (= %s 0)) (= %s %s))", o, ov.term, owner.term)
+			t.quietSpec++
+			body, ok = t.evalBool(e, fi.sa.invs[k])
+			t.quietSpec--
+			return
+		}
+		if assume {
+			for k := range fi.sa.invs {
+				// declared as a constant too: type facts assumed while evaluating the loads mention it
+				// outside the quantifier (true of any object); inside, the binder shadows it
+				o := t.c.declare(t.c.fresh("o"), "Int")
+				cond, body, ok := instance(o, k)
+				if !ok {
+					continue
+				}
+				pats := map[string]bool{}
+				for _, m := range selPatRe.FindAllStringSubmatch(body+" "+cond, -1) {
+					pats["(select "+m[1]+" "+o+")"] = true
+				}
+				var ps []string
+				for p := range pats {
+					if strings.Contains(body+" "+cond, p) {
+						ps = append(ps, ":pattern ("+p+")")
+					}
+				}
+				sort.Strings(ps)
+				if len(ps) == 0 {
+					t.assume(wrap(fmt.Sprintf("(forall ((%s Int)) (=> %s %s))", o, cond, body)))
+				} else {
+					t.assume(wrap(fmt.Sprintf("(forall ((%s Int)) (! (=> %s %s) %s))", o, cond, body, strings.Join(ps, " "))))
+				}
+			}
+			continue
+		}
+		// every pointer to such a struct the function has had in hand so far
+		var objs []string
+		seenT := map[string]bool{}
+		for v, terms := range t.vals {
+			if len(terms) != 1 || seenT[terms[0]] {
+				continue
+			}
+			p, isPtr := v.Type().Underlying().(*types.Pointer)
+			if !isPtr || !types.Identical(p.Elem(), fi.T) {
+				continue
+			}
+			seenT[terms[0]] = true
+			objs = append(objs, terms[0])
+		}
+		sort.Strings(objs)
+		if len(objs) == 0 {
+			continue
+		}
+		for k, inv := range fi.sa.invs {
+			var conj []string
+			for _, o := range objs {
+				cond, body, ok := instance(o, k)
+				if !ok {
+					// not evaluable on this code: reported once, loudly
+					t.evalBool(&evalCtx{t: t, fn: t.fn, st: t.cur, old: t.entry, binds: map[string]sval{}, this: &sval{term: o, typ: pt, sort: "Int"}}, inv)
+					conj = nil
+					break
+				}
+				conj = append(conj, fmt.Sprintf("(=> %s %s)", cond, body))
+			}
+			if len(conj) == 0 {
+				continue
+			}
+			t.oblige("monitor", fmt.Sprintf("%s:%s.inv%d", disc, fi.sa.name, k+1), pos, wrap(and(conj...)), "invariant of every "+fi.sa.name+" guarded by this lock must hold when the lock is given up: "+inv.text)
+		}
+	}
+}
 
 // ---- modular calls ---------------------------------------------------------------------
 
@@ -643,13 +889,25 @@ func (t *fnTrans) applyContract(in ssa.Instruction, fc *FuncContract, callee *ss
 	}
 	pre := &evalCtx{t: t, fn: efn, st: t.cur, old: t.cur, binds: binds, where: full}
 	// locks the callee expects to be held
+	var heldOwners []sval
+	var heldFields []string
 	for _, path := range fc.holds {
-		if k, _, lf, ok := t.lockKeyExpr(pre, path); ok {
+		if k, owner, lf, ok := t.lockKeyExpr(pre, path); ok {
 			goal := sel(t.h.get(t.cur, "held"), k)
 			if strings.Count(path, ".") >= 2 {
 				goal = or(goal, t.heldOfType(lf))
 			}
 			t.oblige("pre", site+":holds:"+path, in.Pos(), goal, short+" must be called with "+path+" held")
+			if owner.typ != nil {
+				// the callee relies on (and re-establishes) the invariants of the lock's owner and of
+				// the objects the lock guards: they must hold when it is called
+				if !t.local[cc.Args[0]] || true {
+					t.assertInvariants(owner, in.Pos(), site)
+				}
+				t.foreignInvariants(lf, false, in, site, &owner)
+				heldOwners = append(heldOwners, owner)
+				heldFields = append(heldFields, lf)
+			}
 		} else {
 			t.g.ann.errs = append(t.g.ann.errs, fmt.Sprintf("%s: cannot resolve lock path %q of callee %s", t.key, path, full))
 		}
@@ -752,6 +1010,10 @@ func (t *fnTrans) applyContract(in ssa.Instruction, fc *FuncContract, callee *ss
 			t.assume(term)
 		}
 		t.quietSpec--
+	}
+	for i := range heldOwners {
+		t.assumeInvariants(heldOwners[i])
+		t.foreignInvariants(heldFields[i], true, nil, "", &heldOwners[i])
 	}
 	t.usedContracts[full] = true
 }
